@@ -18,7 +18,7 @@ ASSUMPTIONS = [
     "an invocation is attributed to the library when the nearest Python frame outward from the special method that belongs to /repo/anytree or to the harness is a library frame (C-level callers such as tuple.index or 'in' have no frame of their own)",
     "__repr__/__str__/attribute access are not in the property's list and are not probed",
 ]
-GATES = ["mon.C17.invocations", "mon.C17.diff.battery", "mon.C17.diff.structural", "C17.battery_values", "C17.classes", "C17.mixed_universe", "C17.trait.eq", "C17.trait.hash", "C17.trait.bool", "C17.trait.len", "C17.trait.cont", "C17.built_by_constructor"]
+GATES = ["mon.C17.invocations", "mon.C17.diff.battery", "mon.C17.diff.structural", "C17.battery_values", "C17.classes", "C17.mixed_universe", "C17.trait.eq", "C17.trait.hash", "C17.trait.bool", "C17.trait.len", "C17.trait.cont", "C17.built_by_constructor", "C17.built_by_constructor_children"]
 
 VERIF_DIR = os.path.dirname(os.path.dirname(os.path.dirname(os.path.abspath(__file__)))) + os.sep
 INVOC = []
@@ -164,8 +164,8 @@ def make_class(base, t):
         body["__slots__"] = ("name", "key")
         cls = type("AdvLM", (F.Hooks, F.LightNodeMixin), body)
     elif base == "Node":
-        def __init__(self, name, key=0, parent=None):
-            F.Node.__init__(self, name, parent=parent, key=key)
+        def __init__(self, name, key=0, parent=None, children=None):
+            F.Node.__init__(self, name, parent=parent, children=children, key=key)
 
         body["__init__"] = __init__
         cls = type("AdvNode", (F.Hooks, F.Node), body)
@@ -295,9 +295,18 @@ def run_class(ctx, base, t, mixed, full_structural):
                 # through the constructor's parent= argument (pre-order arrays: parents precede their children)
                 advc, plnc = make_class(base, t), make_class(base, PLAIN)
                 advn, plnn = [], []
-                for i, p in enumerate(par):
-                    advn.append(advc("n%d" % i, keys[i], parent=None if p is None else advn[p]))
-                    plnn.append(plnc("n%d" % i, keys[i], parent=None if p is None else plnn[p]))
+                if sum(keys) % 2:
+                    # bottom-up through the constructor's children= argument (children are built before their parent)
+                    chl = gen.children_of(par)
+                    advn, plnn = [None] * k, [None] * k
+                    for i in reversed(range(k)):
+                        advn[i] = advc("n%d" % i, keys[i], children=[advn[c] for c in chl[i]])
+                        plnn[i] = plnc("n%d" % i, keys[i], children=[plnn[c] for c in chl[i]])
+                    ctx.count("C17.built_by_constructor_children")
+                else:
+                    for i, p in enumerate(par):
+                        advn.append(advc("n%d" % i, keys[i], parent=None if p is None else advn[p]))
+                        plnn.append(plnc("n%d" % i, keys[i], parent=None if p is None else plnn[p]))
                 ctx.count("C17.built_by_constructor")
             else:
                 advn = universe(base, t, k, keys, mixed)
